@@ -16,6 +16,10 @@ ASSUMPTIONS = ["'last object' read both ways (largest offset of any list; larges
                "at exact SV/tempo-point coincidence and for two SVs at one time either candidate multiplier is accepted"]
 
 
+def pinned(tier):
+    return [dict(cls="repo_test_suite", select=['tests/algorithm_tests'])] if tier == "thorough" else []
+
+
 def gen(rng, tier, k):
     from rv.gen import charts
 
@@ -67,6 +71,9 @@ def setup(ctx):
 
 
 def run(ctx, case):
+    if case.get("cls") == "repo_test_suite":
+        from rv.suite import run_repo_tests
+        return run_repo_tests(ctx, case.get("select"))
     from reamber.algorithms.analysis import scroll_speed
     from reamber.algorithms.generate import sv_normalize
     from reamber.algorithms.utils import dominant_bpm
